@@ -95,7 +95,17 @@ var (
 	trusted, attacker   *rsa.PrivateKey
 	prodPrime           *big.Int
 	primeNotSafe, p1024 *big.Int
+	group14             *big.Int
 )
+
+// RFC 3526 group 14: a 2048-bit safe prime with p mod 3 = 2 (generator 3 passes CheckGP) that is not
+// the prime Telegram's production servers use
+const group14Hex = "FFFFFFFFFFFFFFFFC90FDAA22168C234C4C6628B80DC1CD129024E088A67CC74020BBEA63B139B22514A08798E3404DD" +
+	"EF9519B3CD3A431B302B0A6DF25F14374FE1356D6D51C245E485B576625E7EC6F44C42E9A637ED6B0BFF5CB6F406B7ED" +
+	"EE386BFB5A899FA5AE9F24117C4B1FE649286651ECE45B3DC2007CB8A163BF0598DA48361C55D39A69163FA8FD24CF5F" +
+	"83655D23DCA3AD961C62F356208552BB9ED529077096966D670C354E4ABC9804F1746C08CA18217C32905E462E36CE3B" +
+	"E39E772C180E86039B2783A2EC07A28FB5C55DF06F4C52C9DE2BCBF6955817183995497CEA956AE515D2261898FA0510" +
+	"15728E5A8AACAA68FFFFFFFFFFFFFFFF"
 
 const prodPrimeHex = "C71CAEB9C6B1C9048E6C522F70F13F73980D40238E3E21C14934D037563D930F48198A0AA7C14058229493D22530F4DBFA336F6E0AC925139543AED44CCE7C3720FD51F69458705AC68CD4FE6B6B13ABDC9746512969328454F18FAF8C595F642477FE96BB2A941D5BCD1D4AC8CC49880708FA9B378E3C4F3A9060BEE67CF9A4A4A695811051907E162753B56B0F6B410DBA74D8A84B2A14B3144E0EF1284754FD17ED950D5965B4B9DD46582DB1178D169C6BC465B0D6FF9CA3928FEF5B9AE4E418FC15E83EBEA0F87FA9FF5EED70050DED2849F47BF959D956850CE929851F0D8115F635B105EE2E4E15D04B2454BF6F4FADF034B10403119CD8E3B92FCC5B"
 
@@ -104,6 +114,11 @@ func setup() {
 		trusted, _ = rsa.GenerateKey(crand.Reader, 2048)
 		attacker, _ = rsa.GenerateKey(crand.Reader, 2048)
 		prodPrime, _ = new(big.Int).SetString(prodPrimeHex, 16)
+		group14, _ = new(big.Int).SetString(group14Hex, 16)
+		if h := new(big.Int).Rsh(group14, 1); group14.BitLen() != 2048 || !group14.ProbablyPrime(20) || !h.ProbablyPrime(20) ||
+			new(big.Int).Mod(group14, big.NewInt(3)).Int64() != 2 {
+			panic("group14 constant is not a 2048-bit safe prime with p mod 3 = 2")
+		}
 		for {
 			p, _ := crand.Prime(crand.Reader, 2048)
 			h := new(big.Int).Rsh(new(big.Int).Sub(p, big.NewInt(1)), 1)
@@ -120,9 +135,10 @@ func setup() {
 
 // badRNG is the authentic-but-malicious server's parameter source.
 type badRNG struct {
-	base exchange.TestServerRNG
-	dev  string
-	r    io.Reader
+	base  exchange.TestServerRNG
+	dev   string
+	prime string // "group14": the (honest) server uses another valid group
+	r     io.Reader
 }
 
 func (b badRNG) PQ() (*big.Int, error) { return b.base.PQ() }
@@ -135,6 +151,9 @@ func (b badRNG) DhPrime() (*big.Int, error) {
 		return primeNotSafe, nil
 	case "dh_prime_1024":
 		return p1024, nil
+	}
+	if b.prime == "group14" {
+		return new(big.Int).Set(group14), nil
 	}
 	return b.base.DhPrime()
 }
@@ -153,6 +172,15 @@ func (b badRNG) GA(g int, p *big.Int) (*big.Int, *big.Int, error) {
 		return big.NewInt(5), new(big.Int).Sub(lo, big.NewInt(5)), nil
 	case "ga_big":
 		return big.NewInt(5), new(big.Int).Add(new(big.Int).Sub(p, lo), big.NewInt(5)), nil
+	case "ga_2p_plus1":
+		// congruent to 1 mod p: with a = 0 both sides would derive the key 1
+		return big.NewInt(0), new(big.Int).Add(new(big.Int).Lsh(p, 1), big.NewInt(1)), nil
+	case "ga_p_plus_mid":
+		// an honest g^a shifted by the modulus: same residue, out of range
+		return a, new(big.Int).Add(p, ga), nil
+	case "ga_max2048":
+		v := new(big.Int).Lsh(big.NewInt(1), 2048)
+		return big.NewInt(5), v.Sub(v, big.NewInt(1)), nil
 	}
 	return a, ga, err
 }
@@ -282,7 +310,7 @@ func tamper(n int, dev string, frame []byte, rng *rand.Rand) []byte {
 }
 
 var serverSide = map[string]bool{"dh_prime_not_prime": true, "dh_prime_not_safe": true, "dh_prime_1024": true,
-	"ga_one": true, "ga_pm1": true, "ga_small": true, "ga_big": true}
+	"ga_one": true, "ga_pm1": true, "ga_small": true, "ga_big": true, "ga_2p_plus1": true, "ga_p_plus_mid": true, "ga_max2048": true}
 
 // ---------------------------------------------------------------- one run
 
@@ -356,8 +384,8 @@ func runOnce(cs tr.M, rng *rand.Rand, timeout time.Duration, stallMsg, stallWrit
 	defer scancel()
 	go func() {
 		ex := exchange.NewExchanger(sv, dc).WithRand(rand.New(rand.NewSource(rng.Int63()))).WithTimeout(30 * time.Second).Server(exchange.PrivateKey{RSA: trusted})
-		if rngDev != "" {
-			ex = ex.VerifWithRNG(badRNG{dev: rngDev, r: rng})
+		if rngDev != "" || tr.Str(cs["prime"]) == "group14" {
+			ex = ex.VerifWithRNG(badRNG{dev: rngDev, prime: tr.Str(cs["prime"]), r: rng})
 		}
 		r, err := ex.Run(sctx)
 		if err != nil {
